@@ -371,6 +371,25 @@ macro_rules! mono { ($($tr:ident $f:ident $tra:ident $fa:ident $sym:literal),*) 
 mono!(Add add AddAssign add_assign \"+\", BitAnd bitand BitAndAssign bitand_assign \"&\", BitOr bitor BitOrAssign bitor_assign \"|\",
       BitXor bitxor BitXorAssign bitxor_assign \"^\", Div div DivAssign div_assign \"/\", Mul mul MulAssign mul_assign \"*\",
       Rem rem RemAssign rem_assign \"%\", Shl shl ShlAssign shl_assign \"<<\", Shr shr ShrAssign shr_assign \">>\", Sub sub SubAssign sub_assign \"-\");
+/// like `M`, with a lifetime parameter (operators derived for types that declare lifetimes)
+#[derive(Debug, Clone, PartialEq)]
+pub struct ML<'l>(pub String, pub std::marker::PhantomData<&'l ()>);
+pub fn ml<'l>(s: String) -> ML<'l> { ML(s, std::marker::PhantomData) }
+macro_rules! monol { ($($tr:ident $f:ident $tra:ident $fa:ident $sym:literal),*) => {$(
+  impl<'l> std::ops::$tr<ML<'l>> for ML<'l> { type Output = ML<'l>; fn $f(self, r: ML<'l>) -> ML<'l> { log(format!(\"{} oo {} {}\", stringify!($f), self.0, r.0)); ml(format!(\"({}{}{})oo\", self.0, $sym, r.0)) } }
+  impl<'l, 'a> std::ops::$tr<&'a ML<'l>> for ML<'l> { type Output = ML<'l>; fn $f(self, r: &ML<'l>) -> ML<'l> { log(format!(\"{} or {} {}\", stringify!($f), self.0, r.0)); ml(format!(\"({}{}{})or\", self.0, $sym, r.0)) } }
+  impl<'l, 'a> std::ops::$tr<ML<'l>> for &'a ML<'l> { type Output = ML<'l>; fn $f(self, r: ML<'l>) -> ML<'l> { log(format!(\"{} ro {} {}\", stringify!($f), self.0, r.0)); ml(format!(\"({}{}{})ro\", self.0, $sym, r.0)) } }
+  impl<'l, 'a, 'b> std::ops::$tr<&'b ML<'l>> for &'a ML<'l> { type Output = ML<'l>; fn $f(self, r: &ML<'l>) -> ML<'l> { log(format!(\"{} rr {} {}\", stringify!($f), self.0, r.0)); ml(format!(\"({}{}{})rr\", self.0, $sym, r.0)) } }
+  impl<'l> std::ops::$tra<ML<'l>> for ML<'l> { fn $fa(&mut self, r: ML<'l>) { log(format!(\"{} o {} {}\", stringify!($fa), self.0, r.0)); self.0 = format!(\"({}{}={})o\", self.0, $sym, r.0) } }
+  impl<'l, 'a> std::ops::$tra<&'a ML<'l>> for ML<'l> { fn $fa(&mut self, r: &ML<'l>) { log(format!(\"{} r {} {}\", stringify!($fa), self.0, r.0)); self.0 = format!(\"({}{}={})r\", self.0, $sym, r.0) } }
+)*}}
+monol!(Add add AddAssign add_assign \"+\", BitAnd bitand BitAndAssign bitand_assign \"&\", BitOr bitor BitOrAssign bitor_assign \"|\",
+      BitXor bitxor BitXorAssign bitxor_assign \"^\", Div div DivAssign div_assign \"/\", Mul mul MulAssign mul_assign \"*\",
+      Rem rem RemAssign rem_assign \"%\", Shl shl ShlAssign shl_assign \"<<\", Shr shr ShrAssign shr_assign \">>\", Sub sub SubAssign sub_assign \"-\");
+impl<'l> std::ops::Neg for ML<'l> { type Output = ML<'l>; fn neg(self) -> ML<'l> { log(format!(\"neg o {}\", self.0)); ml(format!(\"-o{}\", self.0)) } }
+impl<'l, 'a> std::ops::Neg for &'a ML<'l> { type Output = ML<'l>; fn neg(self) -> ML<'l> { log(format!(\"neg r {}\", self.0)); ml(format!(\"-r{}\", self.0)) } }
+impl<'l> std::ops::Not for ML<'l> { type Output = ML<'l>; fn not(self) -> ML<'l> { log(format!(\"not o {}\", self.0)); ml(format!(\"!o{}\", self.0)) } }
+impl<'l, 'a> std::ops::Not for &'a ML<'l> { type Output = ML<'l>; fn not(self) -> ML<'l> { log(format!(\"not r {}\", self.0)); ml(format!(\"!r{}\", self.0)) } }
 impl std::ops::Neg for M { type Output = M; fn neg(self) -> M { log(format!(\"neg o {}\", self.0)); M(format!(\"-o{}\", self.0)) } }
 impl<'a> std::ops::Neg for &'a M { type Output = M; fn neg(self) -> M { log(format!(\"neg r {}\", self.0)); M(format!(\"-r{}\", self.0)) } }
 impl std::ops::Not for M { type Output = M; fn not(self) -> M { log(format!(\"not o {}\", self.0)); M(format!(\"!o{}\", self.0)) } }
@@ -435,11 +454,12 @@ def showFn (item : Item) (fieldFmt : String) (inst : String := "R") : String :=
   let body := match item with
     | .enum_ e => if e.variants.isEmpty then "match *x {}" else "match x { " ++ " ".intercalate arms ++ " }"
     | _ => "match x { " ++ " ".intercalate arms ++ " }"
-  let gen := match item with
-    | .struct_ st => !st.generics.params.isEmpty
-    | .enum_ e => !e.generics.params.isEmpty
-    | _ => false
-  s!"pub fn show(x: &X{if gen then "<" ++ inst ++ ">" else ""}) -> String \{ {body} }\n"
+  let params := match item with
+    | .struct_ st => st.generics.params
+    | .enum_ e => e.generics.params
+    | _ => []
+  let args := params.map fun | .lt _ _ => "'static" | _ => inst
+  s!"pub fn show(x: &X{if args.isEmpty then "" else "<" ++ ", ".intercalate args ++ ">"}) -> String \{ {body} }\n"
 
 def showVal {V} [ToString V] (item : Item) (v : Val V) : String :=
   let n := (shapeFields item v.variant).fields.length
@@ -591,6 +611,14 @@ def genOpsRunCase (seed idx : Nat) : Case := runGen seed idx do
     if generic && (← chance 2 3) then pure tyT else pure (Ty.simple "M")
   let generic := generic && tys.any (·.toks == tyT.toks)
   let tys := if generic then tys else tys.map fun _ => Ty.simple "M"
+  -- a lifetime parameter named like the one the generated higher-ranked bounds use in other derives (`'a`)
+  let tyML : Ty := .path false [.mk "ML" [.lt "'a"]]
+  let withLt ← chance 1 4
+  let tys ← if withLt then tys.mapM fun t => do
+      if t.toks == ["M"] && (← chance 2 3) then pure tyML else pure t
+    else pure tys
+  let withLt := withLt && tys.any (·.toks == tyML.toks)
+  let tys := if withLt then tys else tys.map fun t => if t.toks == tyML.toks then Ty.simple "M" else t
   let boundAttr (ty : Ty) : Gen (List Attr) := do
     let isT := ty.toks == tyT.toks
     let t ← pick traits
@@ -605,8 +633,8 @@ def genOpsRunCase (seed idx : Nat) : Case := runGen seed idx do
     let attrs ← boundAttr ty
     pure ({ attrs, name := if k == .named then some (["a", "b", "c", "d"].getD i "z") else none, ty } : Field)
   let fields : Fields := if k == .unit then { kind := .unit } else { kind := k, fields := fs }
-  let generics : Generics := if generic then { params := [.ty "T" [] none] } else {}
-  pure { id := s!"opsRun/{seed}/{idx}", tags := [s!"fields={n}", s!"generic={generic}"],
+  let generics : Generics := { params := (if withLt then [.lt "'a" []] else []) ++ (if generic then [.ty "T" [] none] else []) }
+  pure { id := s!"opsRun/{seed}/{idx}", tags := [s!"fields={n}", s!"generic={generic}", s!"lifetime={withLt}"],
          entry := if useDerive then .derive else .attr args,
          item := .struct_ { attrs := if useDerive then [.deriveEx args] else [], name := "X", generics, fields } }
 
@@ -620,7 +648,9 @@ def opEvStr (kind : Kind) (x y : Val String) (e : OpEv) : String :=
 def opsRunProgram (c : Case) (modName : String) : String × List String :=
   let n := (shapeFields c.item 0).fields.length
   let mk (tag : String) : Val String := { variant := 0, field := fun i => s!"{tag}{i}" }
-  let ctor (tag : String) := ctorWith c.item 0 ((List.range n).map fun i => s!"M(String::from(\"{tag}{i}\"))")
+  let ftys := (shapeFields c.item 0).fields.map (·.ty.toks)
+  let ctor (tag : String) := ctorWith c.item 0 ((List.range n).map fun i =>
+    if (ftys.getD i []).head? == some "ML" then s!"ml(String::from(\"{tag}{i}\"))" else s!"M(String::from(\"{tag}{i}\"))")
   let x := mk "l"
   let y := mk "r"
   let impls := allGenImpls c
